@@ -142,7 +142,7 @@ NOT_YET = {}
 # dimensions added to the generators after the rounds of independently written breaking changes (DESIGN.md 0.5)
 ADDED = {
     "C01": "Also: every tz-database name as TIMEZONE for epoch numbers; wall times in DST gaps / folds under TIMEZONE; complete dates on the reference date / on today's date under every PREFER_DATES_FROM. Round 6: process histories of neighbouring calls (other clock spellings, zone-bearing strings, relative phrases, failing strings, other languages).",
-    "C02": "Also: near-miss invalid values; every settings key x value of every type class and 2-3-entry dicts judged by Validate.tla (P_Validate laws); live-parser / look-alike-settings mini-histories; strings shaped for each parser's entry regex with look-alike signs, colons, digits and case-folding look-alike letters; refinement of the parser loop (Pipeline.tla) on every probed call. Round 6: strings rendered from generated formats (so that they match, %z / %Z included), every kind of TIMEZONE / TO_TIMEZONE value the library resolves.",
+    "C02": "Also: near-miss invalid values; every settings key x value of every type class and 2-3-entry dicts judged by Validate.tla (P_Validate laws); live-parser / look-alike-settings mini-histories; strings shaped for each parser's entry regex with look-alike signs, colons, digits and case-folding look-alike letters; refinement of the parser loop (Pipeline.tla) on every probed call. Round 6: strings rendered from generated formats (so that they match, %z / %Z included), every kind of TIMEZONE / TO_TIMEZONE value the library resolves; the other arguments (languages, locales, region, booleans, date string, formats) with values of every type class, judged by Validate.tla ArgsVerdict.",
     "C03": "Also: settings-neighbour, locale-sibling (any load order), locale-switch, region=, caller-held-object (detection callback, list edited in place) histories.",
     "C04": "Also: range ends; several units with a clock time; seconds and fractions in clock times; a third of the cases on parsers all built before use; implicit now with the library's clock moved to clamping days. Round 6: process histories with equal settings (one RELATIVE_BASE object per value and process).",
     "C05": "Also: vocabulary taken from pristine data with a model-side overlay; regional locales loaded first in fresh processes; search_dates reaching a language first under the same settings; domain = the name as listed (normalisation collisions are findings). Round 6: the listed name's look-alikes (accents removed, other case) on the same parser right before the name.",
